@@ -390,15 +390,30 @@ func ruleGateBeforeExecutorLite(c *Ctx, rid string) {
 	reg := c.P.Method(pkgRedis, "Server", "RegisterExexutor")
 	if c.anchor(rid, reg, "redis.(*Server).RegisterExexutor") {
 		okStore := false
-		allInstrs(reg, func(ins ssa.Instruction) {
-			if mu, ok := ins.(*ssa.MapUpdate); ok {
-				if owner, f, _, ok := fieldOf(mu.Map); ok && owner == "redis.Server" && f == "commandExecutors" {
-					_, kp := strip(mu.Key).(*ssa.Parameter)
-					_, vp := strip(mu.Value).(*ssa.Parameter)
-					okStore = kp && vp
+		var storesParams func(f *ssa.Function, d int)
+		storesParams = func(f *ssa.Function, d int) {
+			allInstrs(f, func(ins ssa.Instruction) {
+				if mu, ok := ins.(*ssa.MapUpdate); ok {
+					if owner, fl, _, ok := fieldOf(mu.Map); ok && owner == "redis.Server" && fl == "commandExecutors" {
+						_, kp := strip(mu.Key).(*ssa.Parameter)
+						_, vp := strip(mu.Value).(*ssa.Parameter)
+						okStore = kp && vp
+					}
 				}
-			}
-		})
+				// the misspelt name kept as a wrapper of the corrected one: its own (name, executor)
+				// parameters handed on unchanged to a method of the server that stores them
+				if call, ok := ins.(*ssa.Call); ok && d < 2 {
+					if h := staticCallee(call.Common()); h != nil && inFramework(h) && h != f && len(call.Common().Args) == 3 {
+						_, kp := strip(call.Common().Args[1]).(*ssa.Parameter)
+						_, vp := strip(call.Common().Args[2]).(*ssa.Parameter)
+						if kp && vp {
+							storesParams(h, d+1)
+						}
+					}
+				}
+			})
+		}
+		storesParams(reg, 0)
 		c.check(okStore, rid, "RegisterExexutor", c.P.pos(reg.Pos()), "stores (name, executor) into the dispatcher's table unchanged", "RegisterExexutor does not store its arguments into the table the dispatcher reads")
 	}
 }
